@@ -347,6 +347,39 @@ def run(ctx):
                 s6.count("oracle:unmapped-bank")
                 if g != "err":
                     s6.violate({"sequence": desc, "addr": hex(a)}, "rejected", g, "a bank that no remaining mapping covers is not rejected")
+        # the same bus object used *while* it is edited: after every directive the probe addresses translate as the bus
+        # built from that prefix of the sequence does (nothing remembered from before the edit)
+        if ci % 2 == 0:
+            from a816.cpu.mapping import Bus
+            live_bus = Bus()
+            probes = addrs[:: max(1, len(addrs) // 12)]
+            for k, d in enumerate(seq):
+                try:
+                    if d[0] == "unmap":
+                        live_bus.unmap(d[1])
+                    else:
+                        kw = {"writeable": 1} if d[5] else {}
+                        live_bus.map(d[1], (d[2], d[3]), (0, 0xFFFF), d[4], mirror_bank_range=d[6], **kw)
+                except Exception as e:  # noqa: BLE001
+                    s6.disagree({"sequence": desc, "step": k}, "ok", f"{type(e).__name__}")
+                    break
+                pdesc = "user:" + ";".join((f"u,{x[1]}" if x[0] == "unmap" else f"{x[1]},{x[2]},{x[3]},{x[4]},{1 if x[5] else 0},{x[6][0] if x[6] else '-'},{x[6][1] if x[6] else '-'}") for x in seq[:k + 1])
+                mod = drv.ask([f"phys {pdesc} {a}" for a in probes] + [f"add {pdesc} {a} 1" for a in probes])
+                got = []
+                for a in probes:
+                    c = impl.phys_code(live_bus, a)
+                    got.append("err" if c == 0 else "none" if c == 1 else f"some {(c - 4) // 2}" if c % 2 == 0 else f"some -{(c - 5) // 2}")
+                for a in probes:
+                    c = impl.add_code(live_bus, a, 1)
+                    got.append("err" if c == 0 else f"ok {c - 1}")
+                s6.cases += len(got)
+                s6.count("oracle:live-edit")
+                bad = next((i for i, (x, y) in enumerate(zip(mod, got)) if x != y), None)
+                if bad is not None:
+                    a = probes[bad % len(probes)]
+                    s6.violate({"sequence_so_far": pdesc, "addr": hex(a), "op": "physical" if bad < len(probes) else "+1", "note": "the bus object was queried after each earlier directive too"},
+                               mod[bad], got[bad], "an address translated on a bus that was edited (map / unmap) after earlier use does not follow the bus as it is now")
+                    break
         if ci < 2:
             s6.sample({"sequence": desc})
     streams.append(s6)
